@@ -60,6 +60,9 @@ func streamOracle(dir string, want []byte, have int, ops []OpObs, sinkStarted bo
 		if strings.HasPrefix(o.Err, "harness:") {
 			return "harness-error", o.Err
 		}
+		if k == "writeto-badsink" {
+			return "", "" // sink outside the io.Writer contract: evidence only
+		}
 		if int(o.N) != len(o.Bytes) {
 			return "count:" + dir + ":" + k, fmt.Sprintf("%s op %d (%s) returned n=%d but delivered %d bytes", dir, i, k, o.N, len(o.Bytes))
 		}
@@ -87,6 +90,12 @@ func streamOracle(dir string, want []byte, have int, ops []OpObs, sinkStarted bo
 				}
 				return "early-eof:" + dir + ":" + k, fmt.Sprintf("%s op %d (%s): end of stream reported after %d of %d bytes", dir, i, k, pos, len(want))
 			}
+		case k == "writeto-sink" && o.Err == "sink-error":
+			// the caller's own sink failed: what it took is a prefix (checked above); what the conn had already
+			// pulled off the stream for that Write is gone with the failed copy (as with io.Copy): no further claim
+			return "", ""
+		case k == "writeto-badsink":
+			return "", ""
 		case o.Err == "timeout" && len(touts) > 0:
 			// the transport reported a read deadline: the caller simply calls again
 			nTimeouts++
@@ -165,7 +174,7 @@ func oracle(c Case, o Obs) (string, string) {
 			return "request-mutated:user:" + seen.When, fmt.Sprintf("username %q right after HandleStream, %q %s", o.ReqUser, seen.User, seen.When)
 		}
 	}
-	if k, d := streamOracle("c2s", c.C2SStream(), len(o.ReqPayload), o.SOps, true, o.C2STouts, c.C2STout.Mode == "mid"); k != "" {
+	if k, d := streamOracle("c2s", o.C2SHanded, len(o.ReqPayload), o.SOps, true, o.C2STouts, c.C2STout.Mode == "mid"); k != "" {
 		return k, d
 	}
 	if o.SWriteErr != "" {
@@ -175,7 +184,7 @@ func oracle(c Case, o Obs) (string, string) {
 		return "s2c-wire-undecodable", o.RespFrames.Err
 	}
 	rfixed := c.Cfg.RespPrefix.Len + c.Cfg.KeyLen + 11 + c.Cfg.KeyLen + TagSize
-	if !c.Cfg.AllowSeg && o.CFirstSeg < rfixed && len(c.S2CStream()) > 0 {
+	if !c.Cfg.AllowSeg && o.CFirstSeg < rfixed && len(o.S2CHanded) > 0 && len(o.S2CWrites) > 0 {
 		// outside the statement's admissible transports: the client must refuse. Read deadlines scripted
 		// at offset 0 (nothing of the response consumed) are reported first, one call each.
 		ops := o.COps
@@ -197,7 +206,7 @@ func oracle(c Case, o Obs) (string, string) {
 		}
 		return "segmented-response-not-refused", fmt.Sprintf("first segment %d < %d: %s", o.CFirstSeg, rfixed, ops[0].Err)
 	}
-	return streamOracle("s2c", c.S2CStream(), 0, o.COps, c.SinkStarted, o.S2CTouts, c.S2CTout.Mode == "mid")
+	return streamOracle("s2c", o.S2CHanded, 0, o.COps, c.SinkStarted, o.S2CTouts, c.S2CTout.Mode == "mid")
 }
 
 // ---------- generator ----------
@@ -260,13 +269,29 @@ func genWrites(r *common.Rng, room int, budget *int, first []int) []WOp {
 			*budget -= n
 		}
 		op := WOp{Kind: "write", Data: Data{Seed: r.U64(), Len: n}}
-		if r.Chance(1, 3) {
+		if r.Chance(2, 5) {
+			// ReadFrom with a scripted io.Reader: short reads of every size, (0, nil) reads, data returned
+			// together with io.EOF (iotest.DataErrReader style) or with another error
 			op.Kind = "readfrom"
 			left := n
-			for left > 0 && len(op.Sizes) < 12 {
+			for left > 0 && len(op.Items) < 12 {
 				s := common.Pick(r, []int{0, 1, 17, 4096, 65535, 65536, 70000, r.Range(1, 3000), r.Range(1, 140000)})
-				op.Sizes = append(op.Sizes, s)
+				it := SrcIt{Len: s}
+				if r.Chance(1, 12) {
+					it.Err = "err"
+				}
+				op.Items = append(op.Items, it)
 				left -= s
+			}
+			switch r.Intn(5) {
+			case 0, 1: // the last result carries io.EOF together with its data
+				if len(op.Items) == 0 {
+					op.Items = []SrcIt{{Len: n}}
+				}
+				op.Items[len(op.Items)-1].Len = max(left+op.Items[len(op.Items)-1].Len, 0)
+				op.Items[len(op.Items)-1].Err = "eof"
+			case 2: // everything in one result, with io.EOF
+				op.Items = []SrcIt{{Len: n, Err: "eof"}}
 			}
 		}
 		ops = append(ops, op)
@@ -321,10 +346,24 @@ func genReads(r *common.Rng, total int) []ROp {
 			ops = append(ops, rd())
 		}
 	}
-	switch r.Intn(5) {
+	switch r.Intn(7) {
 	case 0:
 	case 1, 2:
 		ops = append(ops, ROp{Kind: "writeto"})
+	case 3:
+		// a sink that fails mid-way: some full writes, then a short write together with an error
+		var sk []SinkIt
+		for i, k := 0, r.Intn(3); i < k; i++ {
+			sk = append(sk, SinkIt{Accept: 1 << 20})
+		}
+		sk = append(sk, SinkIt{Accept: common.Pick(r, []int{0, 1, 17, 4096, 65534, 1 << 20}), Err: true})
+		ops = append(ops, ROp{Kind: "writeto-sink", Sink: sk}, ROp{Kind: "writeto"})
+	case 4:
+		if r.Chance(1, 4) {
+			ops = append(ops, ROp{Kind: "writeto-badsink"})
+		} else {
+			ops = append(ops, ROp{Kind: "writeto-sink"})
+		}
 	default:
 		ops = append(ops, ROp{Kind: "tunnel", ViaReadFrom: r.Bool()})
 	}
@@ -393,13 +432,21 @@ func genCase(r *common.Rng) Case {
 		}
 		return Tout{Mode: "boundary", Seed: r.U64(), Count: r.Range(1, 6)}
 	}
+	plain := func(ops []ROp) []ROp { // scripted sinks are not combined with read deadlines
+		for i := range ops {
+			if strings.HasPrefix(ops[i].Kind, "writeto-") {
+				ops[i] = ROp{Kind: "writeto"}
+			}
+		}
+		return ops
+	}
 	if r.Chance(1, 4) {
 		c.C2STout = gt()
-		c.SReads = again(c.SReads, c.C2STout.Count)
+		c.SReads = again(plain(c.SReads), c.C2STout.Count)
 	}
 	if r.Chance(1, 4) {
 		c.S2CTout = gt()
-		c.CReads = again(c.CReads, c.S2CTout.Count)
+		c.CReads = again(plain(c.CReads), c.S2CTout.Count)
 	}
 	return c
 }
@@ -411,7 +458,19 @@ func probes() []Case {
 	two := []WOp{{Kind: "write", Data: Data{Seed: 1, Len: 5000}}, {Kind: "write", Data: Data{Seed: 2, Len: 5000}}}
 	rd := []ROp{{Kind: "read", N: 100}, {Kind: "read", N: 70000}, {Kind: "writeto"}, {Kind: "tunnel"}, {Kind: "read", N: 1}, {Kind: "writeto"}, {Kind: "writeto"}, {Kind: "tunnel"}, {Kind: "writeto"}, {Kind: "read", N: 70000}}
 	three := append(append([]WOp{}, two...), WOp{Kind: "write", Data: Data{Seed: 3, Len: 70000}})
+	de := func(n int, seed uint64) []WOp {
+		return []WOp{{Kind: "readfrom", Data: Data{Seed: seed, Len: n}, Items: []SrcIt{{Len: n, Err: "eof"}}}}
+	}
+	drain := []ROp{{Kind: "read", N: 70000}, {Kind: "read", N: 70000}, {Kind: "writeto"}}
 	return []Case{
+		// io.Reader contract at the copy-path boundaries: the whole (short) stream comes in one Read together with io.EOF,
+		// nothing written before: server's first write, client's ReadFrom; and data together with another error
+		{Cfg: cfg, Target: t, CWrites: de(100, 11), C2S: Seg{Mode: "atomic"}, SReads: drain, SWrites: de(100, 12), S2C: Seg{Mode: "atomic"}, CReads: drain},
+		{Cfg: cfg, Target: t, CWrites: de(70000, 13), C2S: Seg{Mode: "atomic"}, SReads: drain, SWrites: de(70000, 14), S2C: Seg{Mode: "atomic"}, CReads: drain},
+		{Cfg: cfg, Target: t, C2S: Seg{Mode: "atomic"},
+			CWrites: []WOp{{Kind: "readfrom", Data: Data{Seed: 15, Len: 300}, Items: []SrcIt{{Len: 0}, {Len: 100, Err: "err"}, {Len: 200}}}, {Kind: "write", Data: Data{Seed: 16, Len: 10}}}, SReads: drain,
+			SWrites: []WOp{{Kind: "readfrom", Data: Data{Seed: 17, Len: 300}, Items: []SrcIt{{Len: 0}, {Len: 100, Err: "err"}, {Len: 200, Err: "eof"}}}, {Kind: "readfrom", Data: Data{Seed: 18, Len: 50}, Items: []SrcIt{{Len: 50, Err: "eof"}}}},
+			S2C: Seg{Mode: "atomic"}, CReads: drain},
 		// transient-timeout-at-chunk-boundary, both directions, and the negative (deadline inside a chunk)
 		{Cfg: cfg, Target: t, CWrites: three, C2S: Seg{Mode: "atomic"}, SReads: rd, SWrites: three, S2C: Seg{Mode: "atomic"}, CReads: rd, SinkStarted: true,
 			C2STout: Tout{Mode: "boundary", Seed: 1, Count: 5}, S2CTout: Tout{Mode: "boundary", Seed: 2, Count: 5}},
@@ -509,7 +568,7 @@ func evalCases(cases []Case, o *common.Options, rep *common.Report, probe bool) 
 			rep.Note("case %d took more than %s of wall time three times in a row (machine stalled); not evaluated", i, stallLimit)
 			continue
 		}
-		total := len(c.C2SStream()) + len(c.S2CStream())
+		total := len(obs.C2SHanded) + len(obs.S2CHanded)
 		nontrivial := obs.HandleKind == "request" && total > 0 && len(obs.SOps)+len(obs.COps) > 0
 		rep.Case(sig(c), nontrivial)
 		rep.Count("handle=" + obs.HandleKind + obs.HandleErr)
@@ -545,6 +604,13 @@ func evalCases(cases []Case, o *common.Options, rep *common.Report, probe bool) 
 					rep.Count("payload-slice-after-server-write=unchanged")
 				} else {
 					rep.Count("payload-slice-after-server-write=overwritten(borrowed buffer)")
+				}
+			}
+		}
+		for _, ops := range [][]OpObs{obs.SOps, obs.COps} {
+			for _, op := range ops {
+				if op.Op.Kind == "writeto-badsink" {
+					rep.Count("sink-breaking-io.Writer-contract(n<len,nil): WriteTo returned " + strings.TrimPrefix(op.Err, "badsink:"))
 				}
 			}
 		}
